@@ -231,11 +231,22 @@ func (vt *v2T) scenC04() {
 	extra := append(perm(),
 		v2Doc{Key: "License/Unrelated-One/license.txt", Cat: "License", Name: "Unrelated-One", Variant: "license.txt", Data: []byte("quux frobnicate xyzzy plugh wibble wobble flarp snork blivet grault garply waldo\n")},
 		v2Doc{Key: "Header/Unrelated-Two/header.txt", Cat: "Header", Name: "Unrelated-Two", Variant: "header.txt", Data: []byte("fred thud corge zork mumble grumble bletch foobar bazqux norf zot spqr\n")})
+	// in this one the tenth word of the dictionary (token id 10 = '\n' as a rune) is a very common one: token ids are handed
+	// to the diff library as runes, and nothing about a result may depend on which word has which id
+	extra = append([]v2Doc{{Key: "License/Unrelated-Zero/license.txt", Cat: "License", Name: "Unrelated-Zero", Variant: "license.txt",
+		Data: []byte("zeroth oneth twoth threeth fourth fifthy sixthy seventhy eighthy the ninthy of and to\n")}}, extra...)
 	c3 := vt.build("c04c"+proc, 0.8, extra)
 	c4 := vt.build("c04d"+proc, 0.8, base)
 	c4.c.SetTraceConfiguration(&TraceConfiguration{TracePhases: "*", TraceLicenses: "*", Tracer: func(string, ...interface{}) {}})
 	c5 := vt.build("c04e"+proc, 0.8, perm())
-	cs := []*v2C{c1, c2, c3, c4, c5}
+	// a classifier that is used before it is complete: half the corpus, a call, the other half
+	c6 := vt.build("c04f"+proc, 0.8, base[:len(base)/2])
+	vt.match(c6, base[0].Data, v2MatchOpts{quiet: true})
+	vt.match(c6, base[len(base)-1].Data, v2MatchOpts{quiet: true})
+	for _, d := range base[len(base)/2:] {
+		vt.add(c6, d)
+	}
+	cs := []*v2C{c1, c2, c3, c4, c5, c6}
 	// inputs: the same in every process
 	sub := newV2Sub(vuSeed() + 7)
 	var inputs [][]byte
@@ -260,6 +271,18 @@ func (vt *v2T) scenC04() {
 			inputs = append(inputs, d.Data)
 		}
 	}
+	// long documents with scattered edits (both sides of the diff far beyond 100 words)
+	nlong := 0
+	for _, i := range sub.rng.Perm(len(base)) {
+		if d := base[i]; len(d.Data) > 3000 && len(d.Data) < 20000 && nlong < 6 {
+			inputs = append(inputs, sub.editWords(c1, d.Data, []float64{0.04, 0.07, 0.1}[nlong%3]))
+			nlong++
+		}
+	}
+	// a lettered clause marker at the start of a line in one input, the same marker in the middle of a line in another
+	inputs = append(inputs,
+		[]byte("Terms of use\na. You may copy the software.\nb. You may modify the software.\nc. You may not remove this notice.\n"),
+		[]byte("As described in section a. above and clause b. below, subject to c. and the terms of use you may copy the software.\n"))
 	// the other spelling of every interchangeable word, a capitalised URL scheme: words that Normalize (which keeps
 	// original spellings and registers them in the shared dictionary) and Match read differently
 	for k := 0; k < 6; k++ {
@@ -316,6 +339,9 @@ func (vt *v2T) scenC04() {
 		}
 		inputs = append(inputs, []byte(sb.String()))
 	}
+	if proc == "" || proc == "0" {
+		vt.probeC04()
+	}
 	// histories: every classifier sees the inputs in its own order, interleaved with Match / MatchFrom /
 	// Normalize calls on other inputs
 	for round := 0; round < 2; round++ {
@@ -347,6 +373,28 @@ func (vt *v2T) scenC04() {
 			vt.reset(true)
 		}
 	}
+}
+
+// probeC04 re-observes the recorded finding C04-unknown-word-hydration: the scoring rules read the words of a deletion
+// (text only the input has) out of the classifier's dictionary, where a word no corpus document contains is "UNKNOWN"
+// -- until something (Normalize, an unrelated document) registers it.
+func (vt *v2T) probeC04() {
+	doc := "this program is free software you can redistribute it under the terms of the gnu general public license as published by the free software foundation either version two or any later version of that text"
+	in := []byte(strings.Replace(doc, "gnu general", "gnu lesser general", 1))
+	show := func(r Results) string {
+		s := ""
+		for _, m := range r.Matches {
+			s += fmt.Sprintf("[%s %.4f %d-%d]", m.Name, m.Confidence, m.StartTokenIndex, m.EndTokenIndex)
+		}
+		return s
+	}
+	c := NewClassifier(0.8)
+	c.AddContent("License", "Foo", "license.txt", []byte(doc))
+	before := show(c.Match(in))
+	c.Normalize([]byte("x lesser"))
+	after := show(c.Match(in))
+	vt.emit(map[string]interface{}{"ev": "probe", "id": "C04-unknown-word-hydration", "input": string(in),
+		"observed": "after Normalize(\"x lesser\"): " + after, "ideal": "as before: " + before, "deviates": before != after})
 }
 
 // a second, independently seeded helper so that choices shared by all processes do not depend on VERIF_PROC
@@ -526,6 +574,11 @@ func (vt *v2T) scenC08() {
 				}})
 				vt.match(c, content, v2MatchOpts{api: "MatchFrom", reader: func(data []byte) (interface{ Read([]byte) (int, error) }, string) {
 					return &v2ChunkReader{data: data, chunks: fr2, failAt: o, failErr: io.ErrUnexpectedEOF, withErr: k%2 == 0}, io.ErrUnexpectedEOF.Error()
+				}})
+				// an error that wraps an end-of-file sentinel is an error (errors.Is would call it EOF)
+				we := fmt.Errorf("verif transport fault at %d: %w", o, []error{io.EOF, io.ErrUnexpectedEOF}[k%2])
+				vt.match(c, content, v2MatchOpts{api: "MatchFrom", reader: func(data []byte) (interface{ Read([]byte) (int, error) }, string) {
+					return &v2ChunkReader{data: data, chunks: fr2, failAt: o, failErr: we, withErr: k%4 < 2}, we.Error()
 				}})
 			}
 		}
